@@ -80,6 +80,18 @@ M = [
   '\t// Clear unknown fields.\n\tm.SetUnknown(nil)\n', '\t// Clear unknown fields.\n\tif len(m.GetUnknown()) > 64 {\n\t\tm.SetUnknown(nil)\n\t}\n'),
  ('c15-reset-keeps-extensions', 'proto/reset.go',
   '\tm.Range(func(fd protoreflect.FieldDescriptor, _ protoreflect.Value) bool {\n\t\tm.Clear(fd)\n\t\treturn true\n\t})', '\tm.Range(func(fd protoreflect.FieldDescriptor, _ protoreflect.Value) bool {\n\t\tif !fd.IsExtension() || fd.IsList() {\n\t\t\tm.Clear(fd)\n\t\t}\n\t\treturn true\n\t})'),
+ # ---- C05
+ ('c05-string-keys-unsorted', 'internal/impl/codec_map.go',
+  '\t\tcase reflect.String:\n\t\t\treturn keys[i].String() < keys[j].String()\n', '\t\tcase reflect.String:\n\t\t\treturn len(keys[i].String()) < len(keys[j].String())\n'),
+ ('c05-extensions-unsorted', 'internal/impl/encode.go',
+  '\t\tsort.Ints(keys)\n\t\tvar err error', '\t\tif len(keys) > 3 {\n\t\t\tsort.Ints(keys)\n\t\t}\n\t\tvar err error'),
+ ('c05-lazy-passthrough-under-deterministic', 'internal/impl/encode.go',
+  'func lazyFields(opts marshalOptions) bool {\n\t// When deterministic marshaling is requested, force an unmarshal for lazy\n\t// fields to produce a deterministic result, instead of passing through\n\t// bytes lazily that may or may not match what Go Protobuf would produce.\n\treturn opts.flags&piface.MarshalDeterministic == 0',
+  'func lazyFields(opts marshalOptions) bool {\n\t// When deterministic marshaling is requested, force an unmarshal for lazy\n\t// fields to produce a deterministic result, instead of passing through\n\t// bytes lazily that may or may not match what Go Protobuf would produce.\n\treturn true'),
+ ('c05-dynamic-map-any-order', 'proto/encode.go',
+  '\tkeyOrder := order.AnyKeyOrder\n\tif o.Deterministic {\n\t\tkeyOrder = order.GenericKeyOrder\n\t}', '\tkeyOrder := order.AnyKeyOrder\n\tif o.Deterministic && keyf.Kind() != protoreflect.StringKind {\n\t\tkeyOrder = order.GenericKeyOrder\n\t}'),
+ ('c05-bool-keys-unsorted', 'internal/impl/codec_map.go',
+  '\t\tcase reflect.Bool:\n\t\t\treturn !keys[i].Bool() && keys[j].Bool()\n', '\t\tcase reflect.Bool:\n\t\t\treturn false\n'),
  # ---- C27
  ('c27-eof-inside-size', 'encoding/protodelim/protodelim.go',
   'if err == io.EOF && i != 0 {', 'if err == io.EOF && i < 0 {'),
